@@ -35,6 +35,7 @@ def select_templates(prop, tier):
     if prop in ('C04', 'C05', 'C15'): return [t for t in ts if t.analysis == '()' and is_rw(t)]
     if prop == 'C08': return [t for t in ts if t.analysis == '()']          # consistency also after matching / rewriting steps
     if prop == 'C11': return list(ts)                                        # equivariance of every observable: equalities, matches, rewrite flags, extraction cost, analysis data
+    if prop == 'C12': return [t for t in ts if not is_rw(t) and not is_ex(t) and (t.analysis == '()' or getattr(t, 'group', None))]   # reorder groups also with an analysis attached
     return [t for t in ts if t.analysis == '()' and not is_rw(t) and not is_ex(t)]
 
 def hash_orders(tier): return ('ins', 'rev') if tier == 'quick' else ('ins', 'rev', 'rot')
